@@ -26,12 +26,13 @@ const (
 	causeReset
 	causeCancel
 	causeQuit
+	causeCloseBG
 	numCauses
 )
 
 var reconnNames = []string{"main task", "fg DISCONNECTED handler", "bg DISCONNECTED handler", "a task polling Connected()"}
 
-var causeNames = []string{"Close", "Close-from-several-tasks", "server-EOF", "peer-reset", "context-cancel", "QUIT+server-EOF"}
+var causeNames = []string{"Close", "Close-from-several-tasks", "server-EOF", "peer-reset", "context-cancel", "QUIT+server-EOF", "Close-from-a-background-handler"}
 
 type lifeCycle struct {
 	no                   int
@@ -63,6 +64,7 @@ type lifeCycle struct {
 	markerOK      bool
 	dupConnect    bool  // Connect is called again while this connection is up
 	early         bool  // the cause is started from the dialer, before Connect has returned
+	bgBusy        time.Duration
 	failFirst     []int // failing Connect attempts made before this connection: 0 no server, 1 dial error, 2 dial cancelled
 	dupDone       bool
 	dupErr        error
@@ -150,7 +152,7 @@ func lifeRun(e *Env) {
 
 	for i := 0; i < w.ncycles; i++ {
 		cy := &lifeCycle{no: i + 1}
-		cy.cause = g.W(3, 2, 3, 2, 2, 1)
+		cy.cause = g.W(3, 2, 3, 2, 2, 1, 1)
 		cy.cause2 = -1
 		if g.Pct(35) {
 			cy.cause2 = g.Intn(numCauses)
@@ -175,6 +177,11 @@ func lifeRun(e *Env) {
 			cy.slowHandler = time.Duration(g.Range(1, 3000)) * time.Millisecond
 		}
 		cy.quiet = []time.Duration{0, 0, time.Second, 30 * time.Second, 4 * time.Minute}[g.Intn(5)]
+		if g.Pct(15) {
+			// a background handler that is still busy long after the connection
+			// has gone: background handlers never hold up the connection
+			cy.bgBusy = time.Duration(g.Range(5, 90)) * time.Minute
+		}
 		cy.midLine = g.Pct(20)
 		// the cause may begin the moment the dial completes, i.e. while Connect
 		// is still starting goroutines / dispatching REGISTER (a Close that early
@@ -405,6 +412,28 @@ func (w *lifeW) install() {
 	c.HandleBG(client.PRIVMSG, client.HandlerFunc(func(c *client.Conn, l *client.Line) {
 		cy := w.curCycle()
 		if cy == nil {
+			return
+		}
+		var no int
+		if _, err := fmt.Sscanf(l.Text(), "!close %d", &no); err == nil && no >= 1 && no <= len(w.cycles) {
+			// a bot command handled in the background ends the connection
+			cy := w.cycles[no-1]
+			if cy.discSeen {
+				return
+			}
+			cy.scripted = true
+			e.S.Logf("cause: Close() from a background handler on connection %d", cy.no)
+			w.closeCalls++
+			cy.closersStarted()
+			err := c.Close()
+			w.closeReturned++
+			cy.closeErrs = append(cy.closeErrs, err)
+			cy.closeRet++
+			return
+		}
+		if strings.HasPrefix(l.Text(), "busy") {
+			e.S.Count("probe.background-handler-busy-across-the-disconnect")
+			simrt.Sleep(cy.bgBusy)
 			return
 		}
 		if strings.HasPrefix(l.Text(), "burst") {
@@ -655,6 +684,9 @@ func (w *lifeW) server(cy *lifeCycle) {
 		simrt.Sleep(cy.quiet)
 	}
 	// pre-cause traffic: outbound triggers and the inbound backlog
+	if cy.bgBusy > 0 {
+		l.SendLine(":other!o@h PRIVMSG " + w.nick + " :busy")
+	}
 	if cy.outBurst > 0 || cy.bgBurst > 0 {
 		l.SendLine(":other!o@h PRIVMSG " + w.nick + " :burst")
 	}
@@ -757,6 +789,15 @@ func (w *lifeW) fire(cy *lifeCycle, cause int, tag string) {
 			if cy.cancel != nil {
 				cy.cancel()
 			}
+		})
+	case causeCloseBG:
+		e.S.Spawn(name, func() {
+			delay()
+			pre := ""
+			if cy.midLine {
+				pre = "\r\n" // ends the fragment sent before, so that the command is a line of its own
+			}
+			cy.link.Send(fmt.Sprintf("%s:other!o@h PRIVMSG %s :!close %d\r\n", pre, w.nick, cy.no))
 		})
 	case causeQuit:
 		e.S.Spawn(name, func() {
